@@ -488,6 +488,7 @@ class Rig(object):
                      and all(h.gosub is None and not h.stopped and not h.triggered for h in ev.all))
             if not fresh:
                 raise RuntimeError('pooled session did not reset to the fresh state')
+        rep.ce_count = 0
 
     def close(self):
         try:
